@@ -417,7 +417,7 @@ def c10(tier, hook=None):
 # C11
 # ------------------------------------------------------------------------------------------------
 def default_descs(tier, rnd):
-    kinds = ["none", "str", "path", "assoc_path", "call", "block", "method"]
+    kinds = ["none", "str", "path", "assoc_path", "call", "block", "method", "int", "neg"]
     out = []
 
     def flds(n, choice=None):
